@@ -13,6 +13,7 @@ import SshuttleModel.Lemmas.ArgsIpport
 import SshuttleModel.Lemmas.ArgsAscii
 import SshuttleModel.Lemmas.ArgsFile
 import SshuttleModel.Lemmas.ArgsV6Sub
+import SshuttleModel.Lemmas.ArgsHostpart
 
 namespace Sshuttle.ArgsSpec
 open Sshuttle.Inet Sshuttle.Args
@@ -84,6 +85,12 @@ example : (Spell6.compressed [[⟨15, true⟩, ⟨12, false⟩, ⟨0, false⟩, 
     exact ⟨by decide, by decide, by decide⟩
   · intro g hg; cases hg
   · intro h; cases h
+
+/-- The address a spelling denotes is a 128-bit number. -/
+theorem C16_v6_denotes_lt (sp : Spell6) (h : sp.Valid) : sp.denotes < 2 ^ 128 := denotes_lt sp h
+
+example : (Spell6.compressed [] [] .nothing).Valid :=
+  ⟨(fun _ h => nomatch h), (fun _ h => nomatch h), trivial, by decide, fun _ => rfl⟩
 
 /-- **Every documented IPv6 subnet argument means its address.**  For every IPv6 spelling (as
 above), bare or in brackets, every width `≤ 128` or none (inside the brackets when there are
@@ -318,6 +325,19 @@ example : (match ListenForm.ipPort (2 ^ 31 + 1) 12300 with
     | .ipPort a p => a < 2 ^ 32 ∧ p < 65536
     | .ipOnly a => a < 2 ^ 32) := by decide
 
+/-- **`[v6]` and `[v6]:port` for `--listen` / `--to-ns`**: for every IPv6 spelling and every
+port `< 65536` (or none, meaning 0) the result is that address (in `inet_ntop` text) and port. -/
+theorem C16_ipport_v6 (env : Env) (sp : Spell6) (h : sp.Valid) (port : Option Nat)
+    (hp : ∀ p, port = some p → p < 65536) :
+    parseIpport env ('[' :: (sp.text ++ ']' :: portSuffix port)) =
+      .ok (.inet6, ntop6 sp.denotes, port.getD 0) :=
+  parseIpport_v6 env sp h port hp
+
+example : (Spell6.compressed [] [] (.group [⟨1, false⟩])).Valid ∧ (∀ p, some 12300 = some p → p < 65536) := by
+  refine ⟨⟨(fun _ h => nomatch h), (fun _ h => nomatch h), ⟨by decide, by decide, by decide⟩, by decide,
+    (fun h => nomatch h)⟩, ?_⟩
+  intro p h; injection h with h; omega
+
 /-- **User name and password come back exactly as written, whatever printable characters they
 contain.**  For every user name without `:` (it may contain `@ / ? # [ ] %`, blanks, anything
 else), every password (any characters at all, including `:` and `@`; an empty one is reported
@@ -341,14 +361,9 @@ example : "gw:2222".toList ≠ [] ∧ '@' ∉ "gw:2222".toList ∧ (∀ u, some 
   · intro u h; injection h with h; subst h; decide
   · intro h; cases h
 
-/-- **`[user[:password]@]host` decomposes into the user, password and host it was built from**,
-for a host part without a colon (a name, an ssh alias, a dotted quad): then there is no port and
-the host is returned unchanged.  `_partial` concerns the *host part* only: what `hostPart`
-makes of a host part that contains a colon (`host:port`, `[v6]:port`, bare IPv6; `ipaddress`
-+ `urlparse`) is modelled (`Args.hostPart`, `urlparseHost`, `ipAddress`) and tied to the code by
-the correspondence run, but its general port/host theorem is not proved — only the instances
-below.  User and password are covered in full by `C16_hostport_userinfo`. -/
-theorem C16_hostport_partial (user pw : Option Str) (host : Str)
+/-- A host part without a colon (a name, an ssh alias, a dotted quad, anything) is returned
+verbatim and there is no port. -/
+theorem C16_hostport_plain (user pw : Option Str) (host : Str)
     (hhost : host ≠ []) (hat : '@' ∉ host) (hcolon : ':' ∉ host)
     (hu : ∀ u, user = some u → ':' ∉ u) (hnone : user = none → pw = none) :
     parseHostport (some (spellRemote user pw host)) = .ok ⟨user, pwResult pw, none, some host⟩ :=
@@ -359,6 +374,66 @@ example : ['h'] ≠ [] ∧ '@' ∉ ['h'] ∧ ':' ∉ ['h'] ∧ (∀ u, some ['a'
   refine ⟨by decide, by decide, by decide, ?_, ?_⟩
   · intro u h; injection h with h; subst h; decide
   · intro h; cases h
+
+/-- **Round trip of the remote specification.**  For every quadruple
+(user, password, host, port) —
+* user: absent, or any text without `:` (it may contain `@ / ? # [ ] %`, blanks, …);
+* password: absent, or any text at all (`:` and `@` included; an empty one reads back as absent);
+  there is no password without a user;
+* host: a name / ssh alias over `[A-Za-z0-9._-]`, a dotted quad, or **any** IPv6 spelling
+  (`Spell6`: `::` anywhere, leading zeros, either case, embedded IPv4), bare or in brackets;
+* port: absent, or `< 65536` —
+parsing the rendered text `[user[:password]@]host[:port]` gives the quadruple back, with the
+host in canonical form (`HostSpec.canon`: an IPv6 literal in `ipaddress`'s compressed text, a
+dotted quad and a name unchanged, except that `urlparse` lower-cases a name written with a port).
+**Outside (`HostSpec.Valid`), because the text is ambiguous or means something else:** an
+unbracketed IPv6 literal followed by `:port` (it is itself an IPv6 literal, see
+`C16_hostport_outside`); a user name containing `:` (the first `:` starts the password); a name
+that reads as a dotted quad once lower-cased, written with a port (it comes back as the
+canonical quad: that is the `.v4` case); host parts with non-ASCII characters or a `%zone`
+(the `urlparse` branch is modelled for ASCII only). -/
+theorem C16_hostport_roundtrip (user pw : Option Str) (h : HostSpec) (port : Option Nat)
+    (hu : ∀ u, user = some u → ':' ∉ u) (hnone : user = none → pw = none)
+    (hv : h.Valid port) (hp : ∀ p, port = some p → p < 65536) :
+    parseHostport (some (renderRemote user pw h port)) = .ok ⟨user, pwResult pw, port, some (h.canon port)⟩ :=
+  parseHostport_roundtrip user pw h port hu hnone hv hp
+
+example : (∀ u, some "de@ploy".toList = some u → ':' ∉ u) ∧
+    ((some "de@ploy".toList : Option Str) = none → some "p:w@x".toList = (none : Option Str)) ∧
+    (HostSpec.v6 (.compressed [[⟨2, false⟩, ⟨0, false⟩, ⟨0, false⟩, ⟨1, false⟩]] [] (.group [⟨1, false⟩])) true).Valid
+      (some 22) ∧ (∀ p, some 22 = some p → p < 65536) := by
+  refine ⟨?_, ?_, ⟨⟨?_, ?_, ⟨by decide, by decide, by decide⟩, by decide, ?_⟩, fun _ => rfl⟩, ?_⟩
+  · intro u h; injection h with h; subst h; decide
+  · intro h; cases h
+  · intro g hg
+    simp only [List.mem_singleton] at hg
+    subst hg
+    exact ⟨by decide, by decide, by decide⟩
+  · intro g hg; cases hg
+  · intro h; cases h
+  · intro p h; injection h with h; omega
+
+/-- The host part on its own (what `C16_hostport_userinfo` leaves open): for every valid host
+and port, `hostPart` returns that port and the canonical host. -/
+theorem C16_hostport_hostpart (h : HostSpec) (port : Option Nat) (hv : h.Valid port)
+    (hp : ∀ p, port = some p → p < 65536) :
+    hostPart (h.text ++ portSuffix port) = .ok (port, some (h.canon port)) :=
+  hostPart_spec h port hv hp
+
+example : (HostSpec.name "gw-1.Example".toList).Valid (some 2222) ∧ (∀ p, some 2222 = some p → p < 65536) := by
+  refine ⟨⟨by decide, by decide, fun _ => by decide +kernel⟩, ?_⟩
+  intro p h; injection h with h; omega
+
+/-- What lies outside the round trip, as instances: an unbracketed IPv6 literal followed by
+`:22` is the address `2001::1:22` without a port; a `:` in the user name moves the rest of it
+into the password; an upper-case name with a port comes back lower-cased (and without one,
+unchanged). -/
+theorem C16_hostport_outside :
+    parseHostport (some "2001::1:22".toList) = .ok ⟨none, none, none, some "2001::1:22".toList⟩ ∧
+    parseHostport (some "a:b:c@h".toList) = .ok ⟨some ['a'], some "b:c".toList, none, some ['h']⟩ ∧
+    parseHostport (some "GW:22".toList) = .ok ⟨none, none, some 22, some "gw".toList⟩ ∧
+    parseHostport (some "GW".toList) = .ok ⟨none, none, none, some "GW".toList⟩ := by
+  refine ⟨?_, ?_, ?_, ?_⟩ <;> decide +kernel
 
 /-- instances of the colon branch: `user:pw@host:22`, `[2001::1]:22`, bare `2001::1`, and the
 `ValueError` that escapes for a non-numeric or out-of-range port (DESIGN: a traceback from
